@@ -887,9 +887,28 @@ fn c07_check(s: &mut Sink, eng: Eng, c: &C07Case) {
         }
     };
     vmx.register_helper(isaeng::GATHER_ID, isaeng::gather_helper).unwrap();
+    // a calculator that asks for a frame larger than the whole 512-byte stack: C07 describes what a
+    // *registered* calculator does; whether such a one can be registered (or a program loaded under
+    // it) is not specified - a refusal is then not reported
+    let oversized = calc != Calc::None && {
+        let mut entries: Vec<usize> = vec![0];
+        for (k, i) in prog.iter().enumerate() {
+            if i.opc == 0x85 && i.src == 1 {
+                let t = k as i64 + 1 + i.imm as i64;
+                if t >= 0 && (t as usize) < prog.len() {
+                    entries.push(t as usize);
+                }
+            }
+        }
+        entries.iter().any(|pc| calc_value_n(calc, *pc, n_insns) > 512)
+    };
     if calc != Calc::None {
         match catch(|| vmx.set_calc(calc_fn, Box::new(calc))) {
             Ok(Ok(())) => {}
+            Ok(Err(_)) if oversized => {
+                s.outcome("calculator-with-oversized-frames-refused", 1);
+                return;
+            }
             Ok(Err(e)) => {
                 s.violation(&format!("interp/{class}/set-calculator-err"), e, rp.clone());
                 return;
@@ -907,7 +926,11 @@ fn c07_check(s: &mut Sink, eng: Eng, c: &C07Case) {
         }
     } else if c.reload != 0 {
         if let Err(e) = vmx.set_program(&bytes, (0, 0)) {
-            s.violation(&format!("verifier/{class}/rejects-template"), e, rp.clone());
+            if oversized {
+                s.outcome("program-refused-under-a-calculator-with-oversized-frames", 1);
+            } else {
+                s.violation(&format!("verifier/{class}/rejects-template"), e, rp.clone());
+            }
             return;
         }
     }
